@@ -17,7 +17,8 @@ common.import_repo()
 from numba_scfg.core.datastructures.scfg import SCFG  # noqa: E402
 from numba_scfg.core.datastructures.byte_flow import ByteFlow  # noqa: E402
 
-LEVEL = "translation_validation"
+LEVEL = "proof"
+EXTRA_PROPS_FILES = ["Scfg/Props/C15IO.lean"]
 
 
 def exc_sig(e):
@@ -49,7 +50,10 @@ def model_lines(scfg, d, s2, tags=None):
     t2, l2 = export.export(s2, tags)
     dl = enc_dict(d)
     return [(f"H {t1} {l1}", None), (f"IO to_dict {t1}", "ok " + dl),
-            (f"IO from_dict {t2} {dl}", f"ok {t2} {l2}")]
+            (f"IO from_dict {t2} {dl}", f"ok {t2} {l2}"),
+            # hypothesis of Scfg.C15.io_roundtrip, evaluated on the real graph (a statistic: where it
+            # is false the theorem does not apply and the per-instance comparison alone decides)
+            (f"SPEC io_ready {t1}", "?")]
 
 
 def roundtrip(scfg, tags=None):
@@ -164,14 +168,18 @@ def _work(chunk):
             fails.append((m[0], m[1], m[2] + "-reread-graph-differs"))
     mism = []
     nmodel = 0
+    ready = {}
     if mlines:
         for m, r in zip(mmeta, drv.run(mlines)):
             if m[2] is None:
                 continue
+            if m[2] == "?":
+                ready[r] = ready.get(r, 0) + 1
+                continue
             nmodel += 1
             if r != m[2]:
                 mism.append((m[0], m[1], m[2][:300], r[:300]))
-    return n, fails, nmodel, mism
+    return n, fails, nmodel, mism, ready
 
 
 def run(ctx):
@@ -189,6 +197,9 @@ def run(ctx):
     fails = [f for p in parts for f in p[1]]
     nmodel = sum(p[2] for p in parts)
     mism = [m for p in parts for m in p[3]]
+    ready = Counter()
+    for p in parts:
+        ready.update(p[4])
     broken = []
     if mism:
         m0 = min(mism, key=lambda m: (len(m[0]) if m[0] else 99, str(m[0])))
@@ -214,6 +225,8 @@ def run(ctx):
            "rule": "closed CFGs as for C01 (≤14 nodes) + a bytecode function; at every stage prefix: to_dict→from_dict, to_yaml→from_yaml, "
                    "write-read-write-read; the pipeline continues on the re-read graph",
            "stage_graphs_round_tripped": n, "model_comparisons": nmodel, "model_mismatches": len(mism),
+           "io_roundtrip_hypothesis": {"holds": ready.get("1", 0), "does_not_hold": ready.get("0", 0),
+                                       "note": "Scfg.Spec.ioReady evaluated on every real stage graph; where it holds Scfg.C15.io_roundtrip applies to the model"},
            "traces_validated_against_impl": nmodel, "failures_by_kind": {f"{k[0]}:{k[1]}": len(v) for k, v in by.items()}}
     return {"level": LEVEL, "coverage": cov, "violations": violations, "broken": broken,
             "assumptions": ["exporter faithful; PyYAML trusted; dict insertion order of graphs is not part of the compared content"]}
@@ -222,7 +235,7 @@ def run(ctx):
 def replay(path):
     d = json.load(open(path if os.path.isabs(path) else os.path.join(common.VERIF, path)))
     succ = d["input_succ"]
-    n, fails, _, _ = _work([("replay", tuple(tuple(s) for s in succ) if isinstance(succ, list) else None)])
+    n, fails, _, _, _ = _work([("replay", tuple(tuple(s) for s in succ) if isinstance(succ, list) else None)])
     print(fails[:5])
     if fails:
         print(f"VIOLATION property=C15 replay={path}")
